@@ -31,12 +31,13 @@ type Profile struct {
 	PStr      float64
 	POnce     float64 // probability that a rule gets a bare method-call action (no Forget) and retracts itself
 	PDep      float64 // probability that an assignment targets a location some condition reads
+	UseJSON   bool    // the JSON fact J (numbers are float64: no %, &, |, no method arguments, no map entries from them)
 	PRepoint  float64 // probability of the action F.P = F.Spare
 	OneHeavy  bool    // the program holds exactly one counted atom F.Heavy(<path>), shared by its rules (C13)
 }
 
 var profiles = map[string]*Profile{
-	"core": {Name: "core", PRepoint: 0.05, PDep: 0.7, MinRules: 2, MaxRules: 4, UseTop: true, DynSel: 0.3, PMethod: 0.25, PRetract: 0.08, PComplete: 0.04,
+	"core": {Name: "core", UseJSON: true, PRepoint: 0.05, PDep: 0.7, MinRules: 2, MaxRules: 4, UseTop: true, DynSel: 0.3, PMethod: 0.25, PRetract: 0.08, PComplete: 0.04,
 		PSetter: 0.08, PHeavy: 0.1, Saliences: []int64{-2, -1, 0, 0, 1, 2}, MaxActs: 3, PStr: 0.15, PRemoved: 0.05, POnce: 0.15},
 	"small": {Name: "small", PDep: 0.7, MinRules: 1, MaxRules: 2, UseTop: true, DynSel: 0.3, PMethod: 0.25, PRetract: 0.1, PComplete: 0.05,
 		PSetter: 0.1, PHeavy: 0.2, Saliences: []int64{-1, 0, 1}, MaxActs: 2, PStr: 0.2, PRemoved: 0.1, POnce: 0.2},
@@ -46,11 +47,11 @@ var profiles = map[string]*Profile{
 		Saliences: []int64{-1, 0, 0, 1, 5}, MaxActs: 4, PTrueish: 0.6, PRemoved: 0.15, POnce: 0.3},
 	"budget": {Name: "budget", MinRules: 1, MaxRules: 4, UseTop: true, DynSel: 0.1, PMethod: 0.1, PRetract: 0.1, PComplete: 0.1,
 		Saliences: []int64{-1, 0, 1}, MaxActs: 2, PTrueish: 0.8},
-	"memo": {Name: "memo", PRepoint: 0.04, PDep: 0.7, MinRules: 2, MaxRules: 5, UseTop: true, DynSel: 0.2, PMethod: 0.5, PRetract: 0.1, PComplete: 0.02,
+	"memo": {Name: "memo", UseJSON: true, PRepoint: 0.04, PDep: 0.7, MinRules: 2, MaxRules: 5, UseTop: true, DynSel: 0.2, PMethod: 0.5, PRetract: 0.1, PComplete: 0.02,
 		PSetter: 0.15, PHeavy: 0.6, Saliences: []int64{-1, 0, 0, 1}, MaxActs: 3, PTrueish: 0.3},
 	"memo13": {Name: "memo13", PDep: 0.6, MinRules: 2, MaxRules: 5, UseTop: true, DynSel: 0.3, PMethod: 0.4, PRetract: 0.1, PComplete: 0.02,
 		PSetter: 0.1, PHeavy: 1, OneHeavy: true, PFault: 0.12, Saliences: []int64{-1, 0, 0, 1}, MaxActs: 3, PTrueish: 0.3, POnce: 0.1},
-	"fault": {Name: "fault", PRepoint: 0.05, PDep: 0.5, MinRules: 2, MaxRules: 4, UseTop: true, DynSel: 0.4, PMethod: 0.3, PFault: 0.35, PRetract: 0.15, PComplete: 0.05,
+	"fault": {Name: "fault", UseJSON: true, PRepoint: 0.05, PDep: 0.5, MinRules: 2, MaxRules: 4, UseTop: true, DynSel: 0.4, PMethod: 0.3, PFault: 0.35, PRetract: 0.15, PComplete: 0.05,
 		Saliences: []int64{-1, 0, 0, 1}, MaxActs: 3, PTrueish: 0.4, POnce: 0.2},
 	"fetch": {Name: "fetch", MinRules: 2, MaxRules: 6, UseTop: true, DynSel: 0.2, PMethod: 0.3, PFault: 0.15, PRetract: 0.1, PComplete: 0.05,
 		Saliences: []int64{-3, -1, 0, 0, 0, 1, 1, 9}, MaxActs: 2, PTrueish: 0.5, PRemoved: 0.25, PStr: 0.2},
@@ -79,6 +80,9 @@ func (g *Gen) intLocs() []loc {
 		{"F.M[\"a\"]", true}, {"F.M[\"b\"]", true}, {"F.X", true}, {"F.Y", true}}
 	if g.p.UseTop {
 		ls = append(ls, loc{"N", true}, loc{"N", true})
+	}
+	if g.p.UseJSON {
+		ls = append(ls, loc{"J.a", false}, loc{"J.o.n", false}, loc{"J.arr[1]", false}, loc{"J.a", false})
 	}
 	if g.dynArr {
 		ls = append(ls, loc{"F.Arr[F.I]", true}, loc{"F.Arr[F.I]", true})
@@ -118,15 +122,40 @@ func (g *Gen) genInt(d int) (Expr, bool) {
 	switch op := []string{"+", "-", "*", "+", "-", "%", "&", "|"}[g.pick(8)]; op {
 	case "*":
 		a, _ := g.genInt(d - 1)
-		return &Bin{Op: "*", L: a, R: CI(int64(g.pick(3)))}, true
+		return &Bin{Op: "*", L: a, R: CI(int64(g.pick(3)))}, !usesJSON(a)
 	case "%":
 		a, _ := g.genInt(d - 1)
+		if usesJSON(a) {
+			return &Bin{Op: "-", L: a, R: CI(int64(g.pick(3)))}, false
+		}
 		return &Bin{Op: "%", L: a, R: CI(int64(2 + g.pick(3)))}, true
 	default:
 		a, _ := g.genInt(d - 1)
 		b, _ := g.genInt(d - 1)
-		return &Bin{Op: op, L: a, R: b}, true
+		if (op == "&" || op == "|") && (usesJSON(a) || usesJSON(b)) {
+			op = "+" // JSON numbers are float64: the bitwise operators refuse them
+		}
+		return &Bin{Op: op, L: a, R: b}, !(usesJSON(a) || usesJSON(b))
 	}
+}
+
+// usesJSON reports whether the expression reads the JSON fact (its numbers are float64).
+func usesJSON(e interface{}) bool {
+	switch x := e.(type) {
+	case *Path:
+		return x != nil && len(x.Steps) > 0 && x.Steps[0].Name == "J"
+	case *Bin:
+		return usesJSON(x.L) || usesJSON(x.R)
+	case *Not:
+		return usesJSON(x.E)
+	case *Call:
+		for _, a := range x.Args {
+			if usesJSON(a) {
+				return true
+			}
+		}
+	}
+	return false
 }
 
 func (g *Gen) methodInt(d int) (Expr, bool) {
@@ -150,8 +179,13 @@ func (g *Gen) methodInt(d int) (Expr, bool) {
 // exactInt generates an integer expression whose value has kind int64 exactly: reflect.Call panics on
 // int / int32 arguments, and map entries accept only the element type.
 func (g *Gen) exactInt(d int) Expr {
-	e, ex := g.genInt(d)
-	return mkExact(e, ex)
+	for try := 0; try < 8; try++ {
+		e, ex := g.genInt(d)
+		if !usesJSON(e) {
+			return mkExact(e, ex)
+		}
+	}
+	return CI(int64(g.pick(4)))
 }
 
 func mkExact(e Expr, ex bool) Expr {
@@ -214,10 +248,14 @@ func (g *Gen) genBool(d int) Expr {
 	case c == 5:
 		return &Not{E: g.genBool(d - 1)}
 	case c == 6:
-		if g.chance(0.5) {
-			return P([]string{"F.B", "F.C"}[g.pick(2)])
+		bl := []string{"F.B", "F.C"}
+		if g.p.UseJSON {
+			bl = append(bl, "J.t")
 		}
-		return &Not{E: P([]string{"F.B", "F.C"}[g.pick(2)]), Atom: true}
+		if g.chance(0.5) {
+			return P(bl[g.pick(len(bl))])
+		}
+		return &Not{E: P(bl[g.pick(len(bl))]), Atom: true}
 	case c == 7 && g.chance(g.p.PMethod*2):
 		call := &Call{Recv: P("F"), Fn: "IsPos", Args: []Expr{g.exactInt(1)}}
 		if g.chance(0.3) {
@@ -272,7 +310,11 @@ func (g *Gen) genAction(self string) *Action {
 	}
 	switch k := g.pick(10); {
 	case k == 0:
-		return &Action{Kind: "asg", Path: P([]string{"F.B", "F.C"}[g.pick(2)]), Form: "=", E: g.boolRHS()}
+		bl := []string{"F.B", "F.C"}
+		if g.p.UseJSON {
+			bl = append(bl, "J.t")
+		}
+		return &Action{Kind: "asg", Path: P(bl[g.pick(len(bl))]), Form: "=", E: g.boolRHS()}
 	case k == 1 && g.p.PStr > 0:
 		form := []string{"=", "+="}[g.pick(2)]
 		var e Expr = CS([]string{"", "a", "b"}[g.pick(3)])
@@ -290,14 +332,17 @@ func (g *Gen) genAction(self string) *Action {
 		}
 		form := []string{"=", "=", "+=", "-=", "*="}[g.pick(5)]
 		var e Expr
-		var ex bool
 		if form == "*=" {
-			e, ex = CI(int64(g.pick(3))), true
+			e = CI(int64(g.pick(3)))
 		} else {
-			e, ex = g.genInt(1)
+			e, _ = g.genInt(1)
 		}
-		if form == "=" && (strings.HasPrefix(l.path, "F.M") || l.path == "N") {
-			e = mkExact(e, ex)
+		if strings.HasPrefix(l.path, "F.M") {
+			if form != "*=" {
+				e = g.exactInt(1) // a map entry takes exactly its element type: no int / int32 / float64 (JSON) values
+			}
+		} else if l.path == "N" && form != "*=" {
+			e = g.exactInt(1) // a context variable takes the kind of the stored value: keep it an int64 (no JSON float, no int32)
 		}
 		return &Action{Kind: "asg", Path: g.locPath(l), Form: form, E: e}
 	}
@@ -406,6 +451,9 @@ func (g *Gen) Program() *Program {
 	if g.chance(g.p.PHeavy) || g.p.OneHeavy {
 		ls := g.intLocs()
 		l := ls[g.pick(len(ls))]
+		for strings.HasPrefix(l.path, "J.") { // a method argument must be an int64: not a JSON number
+			l = ls[g.pick(len(ls))]
+		}
 		g.heavy = &Call{Recv: P("F"), Fn: "Heavy", Args: []Expr{mkExact(g.locPath(l), l.exact)}}
 	}
 	if g.chance(0.4) {
@@ -467,5 +515,10 @@ func (g *Gen) World() *World {
 	} else {
 		f.Q = &Sub{V: v()}
 	}
-	return &World{F: f, N: v(), HasN: g.p.UseTop}
+	w := &World{F: f, N: v(), HasN: g.p.UseTop}
+	if g.p.UseJSON {
+		w.J = &JFact{A: v(), Arr: []int64{v(), v()}, T: g.chance(0.5), S: []string{"", "a", "b"}[g.pick(3)]}
+		w.J.O.N = v()
+	}
+	return w
 }
